@@ -651,9 +651,7 @@ class ExcludeRegionState(object):  # pylint: disable=too-many-instance-attribute
             these commands are sent to the printer.
         """
         isDebug = self._logger.isEnabledFor(logging.DEBUG)
-        startPosition = None
-        if (isDebug):
-            startPosition = Position(self.position)
+        startPosition = Position(self.position)
 
         eAxis = self.position.E_AXIS
         priorE = eAxis.current
@@ -700,7 +698,12 @@ class ExcludeRegionState(object):  # pylint: disable=too-many-instance-attribute
             # for Marlin 1.1.9).
             returnCommands = self._processNonMove(cmd, deltaE)
         elif (self.isAnyPointExcluded(*xyPairs)):
+            wasExcluding = self.excluding
             returnCommands = self._processExcludedMove(cmd, deltaE)
+            if (self.excluding and not wasExcluding):
+                # The tool physically remains where it was before the move that entered the
+                # region, so that is the position to compare against when exiting later
+                self.lastPosition = startPosition
         elif (self.excluding):
             # Moving from an excluded region into a non-excluded region.
             # Processes the necessary commands to move the tool to the new position specified by the
